@@ -207,6 +207,24 @@ Example ex_round3 :
     [[None; Some [7; 8]]; [None; None]].
 Proof. vm_compute. repeat split; try reflexivity; repeat constructor. Qed.
 
+(* ---- round 4: what the single-file readers keep between calls -------------------------------------------- *)
+(** DFANIopen: after a different file was opened no annotation directory (labels, descriptions) of the previous file is
+    left; DF24getimage used without DF24getdims in between delivers exactly the 24-bit images, in order.  The four
+    booleans behind these statements are read off dfan.c and df24.c. *)
+Theorem annotation_directories_not_stale : forall (A : Type) (dirs : list A * list A),
+  dfan_open false dirs = ([], []) /\ dfan_open true dirs = dirs.
+Proof. exact dfan_open_no_stale_directory. Qed.
+Print Assumptions annotation_directories_not_stale.
+
+Theorem df24_sequential_reads_deliver_the_24bit_images : forall groups,
+  df24_sequence groups = filter (fun g => g =? 3) groups.
+Proof. exact df24_sequence_is_the_24bit_images. Qed.
+Print Assumptions df24_sequential_reads_deliver_the_24bit_images.
+
+Example ex_round4 :
+  df24_sequence [1; 3; 1; 1; 3] = [3; 3] /\ dfan_open false ([7; 8], [9]) = ([], []) /\ dfan_open true ([7; 8], [9]) = ([7; 8], [9]).
+Proof. vm_compute. repeat split; reflexivity. Qed.
+
 (* ---- raster-image groups ---------------------------------------------------------------------------- *)
 Theorem dfr8_group_read_by_dfr8_and_df24 : forall m st', ri_ok m -> ri_ncomp m = 1 ->
   dfr8_view (dfr8_put m ++ st') (dfr8_members m) = Some (rview_of m (ri_il m)) /\
